@@ -87,6 +87,10 @@ func c08Bounds(c *Ctx, p *Prog, ms map[string]*ssa.Function) {
 				c.OK("C08-R1", key, p.pos(in.Pos()), "range index over the same slice")
 				return
 			}
+			if isFullCountedIndex(ia.Index, ia.X) {
+				c.OK("C08-R1", key, p.pos(in.Pos()), "counted index from 0 below len() of the same slice")
+				return
+			}
 			// index must be y*cb.w + x
 			bo, ok := ia.Index.(*ssa.BinOp)
 			var xv, yv ssa.Value
@@ -106,8 +110,8 @@ func c08Bounds(c *Ctx, p *Prog, ms map[string]*ssa.Function) {
 			lowOK := func(v ssa.Value, n string) bool {
 				return hasAtom(g, Atom{n, ">=", "0"}) || isInductionFromNonNeg(v)
 			}
-			okX := lowOK(xv, xn) && hasAtom(g, Atom{n2(xn), "<", "cb.w"})
-			okY := lowOK(yv, yn) && hasAtom(g, Atom{n2(yn), "<", "cb.h"})
+			okX := lowOK(xv, xn) && (hasAtom(g, Atom{n2(xn), "<", "cb.w"}) || belowFieldVia(in.Block(), xv, cbOwner, "w"))
+			okY := lowOK(yv, yn) && (hasAtom(g, Atom{n2(yn), "<", "cb.h"}) || belowFieldVia(in.Block(), yv, cbOwner, "h"))
 			gs := []string{}
 			for _, a := range g {
 				gs = append(gs, a.String())
@@ -296,6 +300,9 @@ func c08Pairs(c *Ctx, p *Prog, ms map[string]*ssa.Function) {
 				}
 			}
 			if st, ok := in.(*ssa.Store); ok && typeName(st.Val.Type()) == cellOwner {
+				if freshCellLiteral(st.Val) {
+					return // a cell built field by field that leaves the last* fields zero: no clean-mark travels
+				}
 				nCellStores++
 				bulk += fmt.Sprintf("%s stores a whole cell at %s; ", fn.Name(), p.pos(in.Pos()))
 			}
@@ -384,7 +391,7 @@ func c08Lock(c *Ctx, p *Prog, ms map[string]*ssa.Function) {
 	for _, s := range storesTo(inv, cellOwner, "lastMain") {
 		if k, isC := constInt(s.Val); isC && k == 0 {
 			if fa, isFA := s.Addr.(*ssa.FieldAddr); isFA {
-				if ia, isIA := fa.X.(*ssa.IndexAddr); isIA && isRangeIndex(ia.Index) {
+				if ia, isIA := fa.X.(*ssa.IndexAddr); isIA && (isRangeIndex(ia.Index) || isFullCountedIndex(ia.Index, ia.X)) {
 					// guards: only the loop condition
 					extra := 0
 					for _, g := range guardsAt(s.Block()) {
@@ -915,4 +922,146 @@ func isRuneWidthCall(v ssa.Value, of ssa.Value) bool {
 		n++
 	}
 	return n > 0
+}
+
+// isFullCountedIndex: idx is the variable of `for i := 0; i < len(s); i++` over the very slice value s.
+func isFullCountedIndex(idx ssa.Value, s ssa.Value) bool {
+	phi, ok := idx.(*ssa.Phi)
+	if !ok || !isInductionFromNonNeg(phi) {
+		return false
+	}
+	for _, r := range referrers(phi) {
+		bo, isBO := r.(*ssa.BinOp)
+		if !isBO || bo.Op != token.LSS || bo.X != ssa.Value(phi) {
+			continue
+		}
+		call, isCall := bo.Y.(*ssa.Call)
+		if !isCall {
+			continue
+		}
+		if b, isB := call.Call.Value.(*ssa.Builtin); isB && b.Name() == "len" && sameValue(call.Call.Args[0], s) {
+			// the test is the loop's own condition: it sits in the block of the phi
+			if bo.Block() == phi.Block() {
+				return true
+			}
+		}
+	}
+	return false
+}
+
+// belowFieldVia: at block b, v < K holds for a K that is itself at most the field owner.field:
+// K is the field's value, or a minimum written out as `k := cb.w; if w < k { k = w }` (a phi each of
+// whose edges is the field's value or a value known smaller on that edge).
+func belowFieldVia(b *ssa.BasicBlock, v ssa.Value, owner, field string) bool {
+	isField := func(x ssa.Value) bool {
+		r, _, ok := loadedField(x)
+		return ok && r.Owner == owner && r.Name == field
+	}
+	atMostField := func(k ssa.Value) bool {
+		if isField(k) {
+			return true
+		}
+		phi, ok := k.(*ssa.Phi)
+		if !ok {
+			return false
+		}
+		for i, e := range phi.Edges {
+			if isField(e) {
+				continue
+			}
+			okEdge := false
+			pred := phi.Block().Preds[i]
+			less := func(a Atom) bool {
+				// e < field, e <= field (either orientation)
+				if a.L == valName(e) && (a.Op == "<" || a.Op == "<=") && strings.HasSuffix(a.R, "."+field) {
+					return true
+				}
+				if a.R == valName(e) && (a.Op == ">" || a.Op == ">=") && strings.HasSuffix(a.L, "."+field) {
+					return true
+				}
+				// compared with the running minimum, which is at most the field already
+				return false
+			}
+			for _, a := range guardsAt(pred) {
+				if less(a) {
+					okEdge = true
+				}
+			}
+			if !okEdge && len(pred.Instrs) > 0 {
+				if iff, isIf := pred.Instrs[len(pred.Instrs)-1].(*ssa.If); isIf {
+					for _, g := range expandCond(iff.Cond, pred.Succs[0] == phi.Block(), 0) {
+						if at, okA := condAtom(g.Cond, g.Positive); okA && less(at) {
+							okEdge = true
+						}
+						// `if w < keepW { keepW = w }` where keepW was initialised from the field: the
+						// comparison is with another value that is at most the field
+						if bo, isBO := g.Cond.(*ssa.BinOp); isBO && g.Positive && bo.Op == token.LSS && bo.X == e {
+							if isField(bo.Y) {
+								okEdge = true
+							}
+						}
+					}
+				}
+			}
+			if !okEdge {
+				return false
+			}
+		}
+		return len(phi.Edges) > 0
+	}
+	for _, g := range rawGuardsAt(b) {
+		bo, ok := g.Cond.(*ssa.BinOp)
+		if !ok {
+			continue
+		}
+		switch {
+		case bo.Op == token.LSS && g.Positive && bo.X == v && atMostField(bo.Y):
+			return true
+		case bo.Op == token.GTR && g.Positive && bo.Y == v && atMostField(bo.X):
+			return true
+		case bo.Op == token.GEQ && !g.Positive && bo.X == v && atMostField(bo.Y):
+			return true
+		}
+	}
+	return false
+}
+
+// freshCellLiteral: v is a cell value built on the spot as a composite literal (go/ssa: a local
+// "complit" cell with field stores, then loaded) that does not set any of the last* fields.
+func freshCellLiteral(v ssa.Value) bool {
+	u, ok := v.(*ssa.UnOp)
+	if !ok || u.Op != token.MUL {
+		return false
+	}
+	al, ok := u.X.(*ssa.Alloc)
+	if !ok {
+		return false
+	}
+	for _, r := range referrers(al) {
+		switch x := r.(type) {
+		case *ssa.FieldAddr:
+			ref, _, okR := fieldAddrRef(x)
+			if !okR {
+				return false
+			}
+			if strings.HasPrefix(ref.Name, "last") {
+				for _, r2 := range referrers(x) {
+					if st, isSt := r2.(*ssa.Store); isSt && st.Addr == ssa.Value(x) {
+						if k, isK := constInt(st.Val); !isK || k != 0 {
+							return false
+						}
+					}
+				}
+			}
+		case *ssa.UnOp:
+		case *ssa.Store:
+			if x.Addr == ssa.Value(al) {
+				return false // initialised from another whole cell
+			}
+		case *ssa.DebugRef:
+		default:
+			return false
+		}
+	}
+	return true
 }
